@@ -9,7 +9,7 @@ CLAIMED = {
     "C03": dict(
         level="proof",
         technique="Lean 4 theorems over a model of the literal parser + differential correspondence (model vs working-tree parser vs rustc_parse_format)",
-        text="Lean theorems about a function-by-function model of impl/src/fmt/parsing.rs and parse_fmt_string against a derivation model of the std::fmt grammar: text yields no placeholders, the implicit counter follows std's rule on every derivation, and (partial round trip) every canonical derivation whose placeholders carry no format_spec, of any length, is accepted and read back as exactly its formats / std's placeholders (formats_agree_nospec_partial, placeholders_agree_nospec_partial; the character-class hypotheses are checked for all code points of the real tables on every run); the format_spec productions are compared, not proved; the model is compared with the working-tree parser, and the grammar model with rustc's own parser, on ~150k generated literals per run",
+        text="Lean theorems about a function-by-function model of impl/src/fmt/parsing.rs and parse_fmt_string against a derivation model of the std::fmt grammar: text yields no placeholders, the implicit counter follows std's rule on every derivation; round trip for the whole grammar (formats_agree, placeholders_agree): every canonical derivation - argument, fill/align, sign, #, 0, width, precision incl. .* and name$, all eleven types, trailing whitespace - of any length prints to a literal the parser accepts and reads back as exactly its formats / std's placeholders, where canonical is std's resolution of the three ambiguities of the grammar (adjacent texts, a leading 0 of a width, an empty spec directly followed by an alignment character); and conversely (accepted_literals_are_derivations) every literal the parser accepts is the print of a lexically well-formed derivation whose std reading is what the parser reports. The character-class hypotheses (Sane, Sane2) are checked for all code points of the real tables on every run; the model is compared with the working-tree parser, and the grammar model with rustc's own parser, on ~150k generated literals per run",
         note="Lean kernel; hand-written model tied by differential run each time; rustc_parse_format (nightly) as std oracle; Unicode classes are parameters; syn unescaping and format_args! itself not modelled",
         ref="DESIGN.md §4 C03"),
     "C05": dict(
